@@ -468,6 +468,7 @@ def summarise(case):
                    'script': proj.script_text('build.bfg').split('\n'),
                    'ops': [o if o[0] != 'write' else o[:2] + ['...']
                            for o in case['ops']]},
+        'sets': {'schedules': sorted(getattr(hist.sim, 'schedules', []))},
         'replay': make_replay(case) if hist.violations else None,
         'wall': case.get('wall'),
     }
